@@ -30,6 +30,7 @@ func init() {
 	register("C05", true, checkC05)
 	register("C20", true, checkC20)
 	register("C07", true, checkC07)
+	register("C17", true, checkC17)
 }
 
 func main() {
